@@ -25,17 +25,28 @@ Print Assumptions C02_recovery_poll_releases_only_on_positive.
 (* receiver: a positive answer is given only for a file whose cache entry is
    validated (body held in .wait), finalized or known from the receive log;
    failed, unknown and merely received files are answered failed / none *)
-Theorem C02_positive_answer_state : forall s now n sent s' code,
-  status_q s now n sent = (s', code) ->
+Theorem C02_positive_answer_state : forall s now n h sent s' code,
+  status_q s now n h sent = (s', code) ->
   code = CONFIRM_PASSED \/ code = CONFIRM_WAITING ->
-  cache_state s' n = ST_VALIDATED \/ cache_state s' n = ST_FINALIZED \/ cache_state s' n = ST_LOGGED.
+  (cache_state s' n = ST_VALIDATED \/ cache_state s' n = ST_FINALIZED \/ cache_state s' n = ST_LOGGED) /\
+  (h = [] \/ cache_hash s' n = [] \/ cache_hash s' n = h).
 Proof. exact status_positive_state. Qed.
 Print Assumptions C02_positive_answer_state.
 
-Theorem C02_negative_states_answered_negatively : forall s now n sent,
+Theorem C02_negative_states_answered_negatively : forall s now n h sent,
   let st := cache_state (build_cache s now sent) n in
-  (st = ST_FAILED -> snd (status_q s now n sent) = CONFIRM_FAILED) /\
-  (st = ST_RECEIVED -> snd (status_q s now n sent) = CONFIRM_NONE) /\
-  (st = ST_UNKNOWN -> snd (status_q s now n sent) = CONFIRM_NONE).
+  (st = ST_FAILED -> snd (status_q s now n h sent) = CONFIRM_FAILED \/ snd (status_q s now n h sent) = CONFIRM_NONE) /\
+  (st = ST_RECEIVED -> snd (status_q s now n h sent) = CONFIRM_NONE) /\
+  (st = ST_UNKNOWN -> snd (status_q s now n h sent) = CONFIRM_NONE).
 Proof. exact status_negative_states. Qed.
+
+(* names are used again: a poll that names the hash of the version that was sent is
+   never answered on the strength of ANOTHER version held under that name (fix
+   "status polls say which version") *)
+Theorem C02_other_version_is_unknown : forall s now n h sent,
+  h <> [] -> cache_hash (build_cache s now sent) n <> [] ->
+  cache_hash (build_cache s now sent) n <> h ->
+  snd (status_q s now n h sent) = CONFIRM_NONE.
+Proof. exact status_other_version_unknown. Qed.
+Print Assumptions C02_other_version_is_unknown.
 Print Assumptions C02_negative_states_answered_negatively.
